@@ -472,3 +472,26 @@ Definition monitor_step (c:mcfg) (cc:ccfg) (s:mall) (op:mop) (o:obs) : mall * li
    the configured password (fact pwleak); the verdict is the negation. (At the abstract level no attribute of a prepared
    request carries a password token other than inside a key descriptor: AgentMech.) *)
 Definition mon_C08_secret (leak:bool) : bool := negb leak.
+
+(* C13, "each verifying under the configured credentials", for the long-term mechanism: the integrity attribute of a request
+   must be keyed with the key the SERVER of the latest accepted challenge derives — MD5 or the negotiated algorithm of
+   (configured user, that realm, configured password) — and be of the kind that challenge calls for. `s` is the long-term
+   monitor state BEFORE the call (realm / algorithms of the latest challenge the client was told to retry for). A request
+   without integrity is not judged here (that is the known finding D6, judged under C08). Kept separate from mon_C13 so
+   that monitor_step and the theorems about it are unchanged; run by the driver next to it. *)
+Definition lt_expected_alg (s:lt_mon) : alg :=
+  match lm_algs s with None => MD5 | Some l => match choose_alg l None with Some a => a | None => MD5 end end.
+Definition mon_C13_ltkey (c:ccfg) (s:lt_mon) (op:mop) (o:obs) : bool :=
+  if negb (cc_mech c =? 4) || negb (lm_challenged s) then true else
+  match op with
+  | MSend _ _ _ _ _ =>
+      match first_out o with
+      | Some (Some p) =>
+          forallb (fun a => match a with
+                            | AMI k => (match lm_algs s with None => true | Some _ => false end) && keyd_eqb k (KLT (lm_realm s) 0 (lt_expected_alg s))
+                            | ASHA k => (match lm_algs s with None => false | Some _ => true end) && keyd_eqb k (KLT (lm_realm s) 0 (lt_expected_alg s))
+                            | _ => true end) (m_attrs p)
+      | _ => true
+      end
+  | _ => true
+  end.
